@@ -174,16 +174,18 @@ class Injector:
     property's quarantine remove (gap label, class) pairs by construction.
     """
 
-    def __init__(self, classes, blocked=None, allow_string_interp=True, weights=None):
+    def __init__(self, classes, blocked=None, allow_string_interp=True, weights=None, allow_attrpath=True):
         self.classes = list(classes)
         self.blocked = blocked or (lambda label, cls: False)
         self.allow_string_interp = allow_string_interp
+        self.allow_attrpath = allow_attrpath
         self.weights = weights
         self.excluded = 0
 
     def choose(self, r: random.Random, tree, mode: str | None = None):
         gaps = cst.code_gaps(tree)
-        usable = [g for g in gaps if self.allow_string_interp or not g.in_interp_of_string]
+        usable = [g for g in gaps if (self.allow_string_interp or not g.in_interp_of_string) and (self.allow_attrpath or not g.in_attrpath)]
+        self.excluded += len(gaps) - len(usable) if not self.allow_attrpath else 0
         if not usable:
             return gaps, []
         if mode is None:
